@@ -26,6 +26,7 @@ MassFails(ev) ==
     ELSE LET z == EffZ(ev)
              want == PrecursorMass(ev.A, z, EffAdducts(ev), ev.iso, ev.loss, ev.mono, FALSE)
              tol == FAdd(BaseTol(ev.mono), HalfUlp(ev.prec)) IN
+         (IF ev.res2 # ev.res THEN {"second_identical_call_returns_another_value"} ELSE {}) \cup
          IF ev.call = "mass"
          THEN (IF FWithin(ev.res, want, tol) THEN {} ELSE {"mass_is_not_sum_of_parts"})
          ELSE IF z > 0 THEN (IF FWithin(FMulInt(ev.res, z), want, FMulInt(tol, z)) THEN {} ELSE {"mz_times_z_is_not_mass"})
